@@ -150,10 +150,12 @@ def tlc_verify(name, constants, invariants, workdir, workers=8, timeout=1500,
         st["ok"] = rc == 0 and "violated" not in st
         st["mode"] = f"simulation num={simulate[0]} depth={simulate[1]}"
     st["wall_s"] = round(time.time() - t0, 1)
-    st["timeout"] = rc == 124
+    # (killed for time or memory: the model run is incomplete, which the evidence says; the
+    # behaviours are still generated and validated)
+    st["timeout"] = rc in (124, -9, 137)
     st["constants"] = {k: (sorted(v, key=str) if isinstance(v, (set, frozenset)) else v)
                        for k, v in constants.items()}
-    if rc not in (0, 124) and not st.get("violated"):
+    if rc not in (0, 124, -9, 137) and not st.get("violated"):
         log(out[-3000:])
         raise ToolError(f"TLC verification run failed rc={rc}")
     if st.get("violated"):
